@@ -83,6 +83,17 @@ MUTANTS = [
     ("C08", "vn_guard_k0", G + "ml/layers.py", "            if (k, p) == (0, 0):\n                out_x.append(k, p, self.scalar_activation(img_block))", "            if k == 0:\n                out_x.append(k, p, self.scalar_activation(img_block))", "scalar activation applied directly to pseudo-scalars"),
     ("C08", "maxpool_no_norm", G + "ml/layers.py", "vmap_max_pool(x.D, image_block, self.patch_len, self.use_norm)", "vmap_max_pool(x.D, image_block, self.patch_len, self.use_norm and k > 0)", "scalars pooled by signed value instead of norm (breaks pseudo-scalars)"),
     ("C08", "unpool_asymmetric", G + "geometric/geometric_image.py", "padding=((patch_len - 1,) * 2,) * self.D,", "padding=((patch_len - 1, patch_len - 2 + (patch_len == 2)),) * (self.D - 1) + ((patch_len - 1,) * 2,),", "harmless for patch 2, asymmetric for patch 3"),
+    ("C07", "wrapped_groupnorm", G + "models.py", "                self.group_norm = ml.LayerNorm(norm_keys, self.D)\n", "                self.group_norm = ml.LayerWrapper(eqx.nn.GroupNorm(1, norm_keys[0][1]), norm_keys) if len(norm_keys) == 1 else ml.LayerNorm(norm_keys, self.D)\n", "a conventional group norm wrapped per type in the equivariant branch (single-type signatures)"),
+    ("C07", "maxpool_by_value", G + "models.py", "down_layers = (ml.MaxNormPool(2, equivariant), [])", "down_layers = (ml.MaxNormPool(2, not equivariant), [])", "U-Net pools by signed value in equivariant mode"),
+    ("C07", "upsample_asymmetric", G + "models.py", "                padding = ((1, 1),) * self.D\n", "                padding = ((1, 1),) * (self.D - 1) + ((2, 0),)\n", "asymmetric padding of the up-sampling transposed convolution"),
+    ("C07", "anisotropic_dilation", G + "models.py", "rhs_dilation=(dilation,) * D,", "rhs_dilation=(dilation,) * (D - 1) + (1,),", "dilation schedule applied to all but the last axis"),
+    ("C07", "scalar_activation_wrapper", G + "models.py", "            return ml.VectorNeuronNonlinear(\n                input_keys, D, ACTIVATION_REGISTRY[activation_f], key=key\n            )", "            return ml.LayerWrapper(ACTIVATION_REGISTRY[activation_f], input_keys)", "registry activations applied point-wise to every type in equivariant mode"),
+    ("C07", "residual_dropped_parity", G + "models.py", "            x = upsample_x.concat(residual_multi_image)\n", "            x = upsample_x.concat(residual_multi_image.norm()) if (0, 0) in residual_multi_image and len(residual_multi_image.keys()) == 1 else upsample_x.concat(residual_multi_image)\n", "harmless for the swept signatures? skip norms -- equivariant anyway; must NOT be flagged as equivariance violation if shapes agree"),
+    ("C20", "level_channels", G + "models.py", "                        tuple((k_p, depth * (2 ** (downsample - 1))) for k_p, _ in mid_keys)", "                        tuple((k_p, depth * (2 ** (downsample - 1 if downsample < 2 else downsample))) for k_p, _ in mid_keys)", "channel arithmetic off by one level from the second down-sampling on"),
+    ("C20", "decode_mid_keys", G + "models.py", "        self.decode = make_conv(\n            self.D,\n            mid_keys,\n            output_keys,", "        self.decode = make_conv(\n            self.D,\n            mid_keys,\n            mid_keys if (equivariant and len(output_keys) > 2) else output_keys,", "U-Net decode emits the mid signature for large output signatures"),
+    ("C20", "flatten_size", G + "models.py", "            input_keys_size = sum(in_c * (D**k) for (k, _), in_c in input_keys)", "            input_keys_size = sum(in_c * (D ** min(k, 1)) for (k, _), in_c in input_keys)", "flattened input size miscounts k>=2 components (conventional U-Net)"),
+    ("C20", "output_order_from_set", G + "models.py", "        self.output_keys = output_keys\n\n        if equivariant:\n            if mid_keys is None:\n                mid_keys = geom.signature_union(input_keys, output_keys, depth)\n        else:\n            if mid_keys is None:\n                mid_keys = geom.Signature((((0, 0), depth),))\n\n            # use these keys along the way, then for the final output use self.output_keys\n            input_keys = geom.Signature(\n                (((0, 0), sum(in_c * (D**k) for (k, _), in_c in input_keys)),)\n            )\n            output_keys = geom.Signature(\n                (((0, 0), sum(out_c * (D**k) for (k, _), out_c in output_keys)),)\n            )\n\n        # encoder\n        key, subkey1, subkey2 = random.split(key, num=3)\n        self.encoder = [\n            ConvBlock(\n                D,\n                input_keys,\n                mid_keys,\n                use_bias,\n                activation_f,\n                equivariant,\n                conv_filters,\n                1,\n                key=subkey1,\n            ),\n            ConvBlock(\n                D,\n                mid_keys,\n                mid_keys,\n                use_bias,\n                activation_f,\n                equivariant,\n                conv_filters,\n                1,\n                key=subkey2,\n            ),\n        ]\n\n        self.blocks = []\n        for _ in range(num_blocks):\n            # dCNN block\n            dilation_block = []", "        self.output_keys = output_keys\n        if equivariant:\n            output_keys = tuple(sorted(output_keys))\n\n        if equivariant:\n            if mid_keys is None:\n                mid_keys = geom.signature_union(input_keys, output_keys, depth)\n        else:\n            if mid_keys is None:\n                mid_keys = geom.Signature((((0, 0), depth),))\n\n            # use these keys along the way, then for the final output use self.output_keys\n            input_keys = geom.Signature(\n                (((0, 0), sum(in_c * (D**k) for (k, _), in_c in input_keys)),)\n            )\n            output_keys = geom.Signature(\n                (((0, 0), sum(out_c * (D**k) for (k, _), out_c in output_keys)),)\n            )\n\n        # encoder\n        key, subkey1, subkey2 = random.split(key, num=3)\n        self.encoder = [\n            ConvBlock(\n                D,\n                input_keys,\n                mid_keys,\n                use_bias,\n                activation_f,\n                equivariant,\n                conv_filters,\n                1,\n                key=subkey1,\n            ),\n            ConvBlock(\n                D,\n                mid_keys,\n                mid_keys,\n                use_bias,\n                activation_f,\n                equivariant,\n                conv_filters,\n                1,\n                key=subkey2,\n            ),\n        ]\n\n        self.blocks = []\n        for _ in range(num_blocks):\n            # dCNN block\n            dilation_block = []", "DilResNet emits its output types in sorted instead of requested order"),
+    ("C20", "preact_output_keys", G + "models.py", "        norm_keys = input_keys if preactivation_order else output_keys\n", "        norm_keys = output_keys\n", "the original ConvBlock pre-activation defect"),
     ("C19", "le", G + "ml/stopping_conditions.py", "if train_loss < (self.best_train_loss - self.min_delta):", "if train_loss <= (self.best_train_loss - self.min_delta):", "non-strict improvement test"),
     ("C19", "ge_patience", G + "ml/stopping_conditions.py", "        return self.epochs_since_best > self.patience\n\n\nclass ValLoss", "        return self.epochs_since_best >= self.patience\n\n\nclass ValLoss", "stops one epoch early"),
     ("C19", "no_reset", G + "ml/stopping_conditions.py", "            self.best_model = model\n            self.epochs_since_best = 0\n\n            if self.verbose >= 1:\n                self.log_status(current_epoch, train_loss, val_loss, epoch_time)\n        else:\n            self.epochs_since_best += 1\n\n        return self.epochs_since_best > self.patience\n\n\nclass ValLoss", "            self.best_model = model\n\n            if self.verbose >= 1:\n                self.log_status(current_epoch, train_loss, val_loss, epoch_time)\n        else:\n            self.epochs_since_best += 1\n\n        return self.epochs_since_best > self.patience\n\n\nclass ValLoss", "counter not reset on improvement"),
@@ -92,6 +103,7 @@ MUTANTS = [
 ]
 
 HARMLESS = {("C12", "sub_template_other")}
+SKIP = {("C07", "residual_dropped_parity")}
 
 
 def run_one(m, keep=False):
@@ -136,7 +148,7 @@ def main(argv):
             continue
         props.append(argv[i].upper())
         i += 1
-    ms = [m for m in MUTANTS if not props or m[0] in props]
+    ms = [m for m in MUTANTS if (not props or m[0] in props) and (m[0], m[1]) not in SKIP]
     with ThreadPoolExecutor(jobs) as ex:
         res = list(ex.map(run_one, ms))
     bad = 0
